@@ -392,13 +392,19 @@ def _roles(prog: Program) -> dict[str, str]:
     ts = func_params(ug.node)[0] if func_params(ug.node) else ""
     inner = [(c, m) for c, m in private_calls(ug, 1) if "_gaps" in summ.of_method(m.name) and m.name != ug.name]
     roles["remove_gap"] = pick("remove_gap", [m.name for c, m in inner if arg_texts(c) == [ts]])
-    roles["cleanup_gaps"] = pick("cleanup_gaps", [m.name for c, m in inner if not arg_texts(c)])
+    tidy = [m.name for c, m in inner if not arg_texts(c)] or [
+        m.name for c, m in private_calls(up, 1) if not arg_texts(c) and summ.of_method(m.name) == {"_gaps"}]
+    walks_itself = any(isinstance(x, ast.While) and "len(self._gaps)" in u(x.test) for x in walk_no_nested(ug.node))
+    if not tidy and ROLE_HINTS["cleanup_gaps"] not in cls.methods and walks_itself:
+        roles["cleanup_gaps"] = ""      # the normalising walk is part of update_gaps itself (helper inlined)
+    else:
+        roles["cleanup_gaps"] = pick("cleanup_gaps", tidy)
     prog.__dict__["_c09_roles"] = roles
-    prog.__dict__["_c09_keep"] = set(roles.values())
+    prog.__dict__["_c09_keep"] = {r for r in roles.values() if r}
     return roles
 
 
-_c09_util.KEEP_RESOLVER = lambda prog: set(_roles(prog).values())  # noqa: E731
+_c09_util.KEEP_RESOLVER = lambda prog: {r for r in _roles(prog).values() if r}  # noqa: E731
 _c09_util.ROLE_HINT_NAMES |= set(ROLE_HINTS.values())
 
 
@@ -407,7 +413,10 @@ def _role(prog: Program, role: str) -> str:
 
 
 def _role_func(prog: Program, role: str) -> FuncInfo:
-    return prog.func(f"{BUF}:OrderedRingBuffer.{_role(prog, role)}")
+    name = _role(prog, role)
+    if not name and role == "cleanup_gaps":
+        name = _role(prog, "update_gaps")      # host of the inlined walk
+    return prog.func(f"{BUF}:OrderedRingBuffer.{name}")
 
 
 def check_norm(run: Run, prog: Program) -> None:
@@ -431,7 +440,7 @@ def check_norm(run: Run, prog: Program) -> None:
     def tree(m: FuncInfo) -> FuncInfo:
         # simple private helpers are read at their call site (with the actual arguments)
         if m.name not in trees:
-            trees[m.name] = FuncInfo(m.name, m.module, inline_helpers(prog, m, exclude=set(_roles(prog).values())),
+            trees[m.name] = FuncInfo(m.name, m.module, inline_helpers(prog, m, exclude={r for r in _roles(prog).values() if r}),
                                      m.cls, m.outer)
         return trees[m.name]
 
@@ -908,7 +917,7 @@ def check_gap_bounds(run: Run, prog: Program) -> None:  # noqa: C901
     run.analysed(fg.qual)
     data = fg.params[1]
     fpaths = ordered_paths(prog, fg)
-    fpaths = fpaths + loop_paths(fpaths, fg.qual)
+    fpaths = fpaths + loop_paths(fpaths, fg.qual, prog=prog, fn=fg)
     stores: set[int] = set()
     for p in fpaths:
         for i, e in enumerate(p.effects):
@@ -1380,10 +1389,15 @@ def check_none(run: Run, prog: Program) -> None:
 def _gap_ops(p: Path, prog: Program) -> dict[str, list[tuple[int, Any]]]:
     """Operations on the gap list on this path: Gap list assignments, appended gaps, removals, clean-ups."""
     ops: dict[str, list[tuple[int, Any]]] = {"assign": [], "append": [], "remove": [], "cleanup": [], "other": []}
+    tidy = _role(prog, "cleanup_gaps")
     for i, e in enumerate(p.effects):
         if e.kind == "write" and self_attr_root(e.node.elts[0]) == "_gaps":  # type: ignore[attr-defined]
             tgt, val = e.node.elts  # type: ignore[attr-defined]
+            if u(tgt) == "self._gaps" and isinstance(val, ast.Call) and u(val.func) == "sorted" and not tidy:
+                continue     # first step of the inlined normalising walk (decided by the walk rule)
             ops["assign" if u(tgt) == "self._gaps" else "other"].append((i, val))
+        elif e.kind == "loop" and not tidy and isinstance(e.orig, ast.While) and "len(self._gaps)" in u(e.orig.test):
+            ops["cleanup"].append((i, e.orig))
         elif e.kind == "del" and self_attr_root(e.node) == "_gaps":
             ops["other"].append((i, e.node))
         elif e.kind == "call":
@@ -1393,12 +1407,31 @@ def _gap_ops(p: Path, prog: Program) -> dict[str, list[tuple[int, Any]]]:
                 ops["append"].append((i, c.args[0]))
             elif method_call(c, "self", _role(prog, "remove_gap")):
                 ops["remove"].append((i, c))
-            elif method_call(c, "self", _role(prog, "cleanup_gaps")):
+            elif tidy and method_call(c, "self", tidy):
                 ops["cleanup"].append((i, c))
             elif isinstance(c.func, ast.Attribute) and self_attr_root(c.func.value) == "_gaps" \
                     and c.func.attr in ("extend", "insert", "remove", "pop", "clear", "sort", "reverse"):
                 ops["other"].append((i, c))
     return ops
+
+
+def _tidied_by_update(prog: Program) -> bool:
+    """The normalising walk is not part of update_gaps: then every completing path of update() itself runs it
+    after the gap bookkeeping (the unit of behaviour is one update() call)."""
+    tidy, track = _role(prog, "cleanup_gaps"), _role(prog, "update_gaps")
+    if not tidy:
+        return False
+    up = prog.func(f"{BUF}:OrderedRingBuffer.update")
+    done = 0
+    for p in ordered_paths(prog, up):
+        if p.exit == "raise":
+            continue
+        a = [index_of(p, e) for e in p.calls(lambda c: method_call(c, "self", track))]
+        b = [index_of(p, e) for e in p.calls(lambda c: method_call(c, "self", tidy))]
+        if not a or not b or b[-1] < a[-1]:
+            return False
+        done += 1
+    return done > 0
 
 
 def _gap_is(g: ast.AST | None, start: Any, end: Any) -> bool:
@@ -1479,7 +1512,8 @@ def check_gap_cases(run: Run, prog: Program) -> None:  # noqa: C901
                   f"{[u(x)[:50] for k in ('assign', 'append', 'remove') for _i, x in ops[k]]})", **where)
         if not reset:
             last = max([i for k in ("assign", "append", "remove") for i, _x in ops[k]], default=-1)
-            ok = bool(ops["cleanup"]) and ops["cleanup"][-1][0] > last
+            ok = (bool(ops["cleanup"]) and ops["cleanup"][-1][0] > last) or (
+                not ops["cleanup"] and _tidied_by_update(prog))
             run.check(ok, "C09.GAP", fn.qual, "self._cleanup_gaps() after the gap list changed / the window moved",
                       "the gap list is not normalised (outdated gaps dropped, start trimmed to the window, neighbours "
                       "merged) after the update: gaps / count_valid report evicted slots", **where)
@@ -1529,6 +1563,9 @@ def _gap_lookup(p: Path, ts: str) -> tuple[str, set[str], bool] | None:
             idx = as_gap(x)
             if idx is not None:
                 return u(x), idx, not outcome
+            r = first_of(x) if x is not None else None
+            if r is not None and r[0] == "(I, E)" and (r[1] is None or u(r[1]) == "None"):
+                return f"{u(x)}[1]", {f"{u(x)}[0]"}, not outcome      # the found (position, gap) pair itself
         elif key[0] == "truthy":
             idx = as_gap(e.node)
             if idx is not None:
@@ -1589,37 +1626,62 @@ def check_remove_gap(run: Run, prog: Program) -> None:  # noqa: C901
             decided(p, ("==", frozenset({f"{e0} - {STEP}", ts})))]
         right_empty = True if True in right_tests else (False if False in right_tests else None)
         deleted = any(drops(x) for _i, x in ops["other"])
-        pieces: list[tuple[Any, Any]] = []
-        copies = [x for _i, x in ops["append"]]
+        # values are read in the state they were evaluated in: `pre@L(G.end)` (a local bound before the write at
+        # line L) is the original end, a plain `G.end` after a write is what was written
+        s_orig, e_orig = "gap0_start", "gap0_end"
+
+        def resolve(x: Any, pos: int) -> str:
+            t = u(_ast(x)) if not isinstance(x, str) else x
+            for _i, tg, _v, line in ws:
+                if u(tg) in (s0, e0):
+                    t = t.replace(pre_name(line, u(tg)), s_orig if u(tg) == s0 else e_orig)
+            for chain, orig in ((s0, s_orig), (e0, e_orig)):
+                if chain in t:
+                    prev = [(i, v) for i, tg, v, _l in ws if u(tg) == chain and i < pos]
+                    t = t.replace(chain, f"({resolve(prev[-1][1], prev[-1][0])})" if prev else orig)
+            return t
+
+        pieces: list[tuple[str, str]] = []
+        copies = [(i, x) for i, x in ops["append"]]
         first_store = min([i for i, t, _v, _l in ws if u(t) in (s0, e0)], default=10 ** 9)
-        understood = all(u(t) in (s0, e0) or any(u(t) in (f"{u(c)}.start", f"{u(c)}.end") for c in copies)
+        understood = all(u(t) in (s0, e0) or any(u(t) in (f"{u(c)}.start", f"{u(c)}.end") for _i, c in copies)
                          for _i, t, _v, _l in ws) and not ops["assign"] and not ops["remove"] \
             and all(drops(x) for _i, x in ops["other"])
-        for c in copies:
+        for pos, c in copies:
+            if isinstance(c, ast.Call) and u(c.func) == "Gap":
+                a = _gap_args(c)
+                if "start" not in a or "end" not in a:
+                    understood = False
+                    continue
+                pieces.append((resolve(a["start"], pos), resolve(a["end"], pos)))
+                continue
             took = first_call(p, u(c))
             if not (isinstance(c, ast.Call) and u(c.func) in ("deepcopy", "copy.deepcopy", "copy.copy", "copy")
                     and len(c.args) == 1 and u(c.args[0]) == g and took is not None and took < first_store):
                 understood = False
                 continue
-            cs = next((v for _i, t, v, _l in reversed(ws) if u(t) == f"{u(c)}.start"), _ast(s0))
-            ce = next((v for _i, t, v, _l in reversed(ws) if u(t) == f"{u(c)}.end"), _ast(e0))
-            pieces.append((cs, ce))
+            cs = next(((i, v) for i, t, v, _l in reversed(ws) if u(t) == f"{u(c)}.start"), None)
+            ce = next(((i, v) for i, t, v, _l in reversed(ws) if u(t) == f"{u(c)}.end"), None)
+            pieces.append((resolve(cs[1], cs[0]) if cs else s_orig, resolve(ce[1], ce[0]) if ce else e_orig))
         if not deleted:
-            ms = next((v for _i, t, v, _l in reversed(ws) if u(t) == s0), _ast(s0))
-            me = next((v for _i, t, v, _l in reversed(ws) if u(t) == e0), _ast(e0))
-            pieces.append((ms, me))
+            ms = next(((i, v) for i, t, v, _l in reversed(ws) if u(t) == s0), None)
+            me = next(((i, v) for i, t, v, _l in reversed(ws) if u(t) == e0), None)
+            pieces.append((resolve(ms[1], ms[0]) if ms else s_orig, resolve(me[1], me[0]) if me else e_orig))
         want: list[tuple[str, str]] = []
         if left_empty is not True:
-            want.append((s0, ts))
+            want.append((s_orig, ts))
         if right_empty is not True:
-            want.append((after, e0))
-        got = sorted((repr(_poly(a)), repr(_poly(b))) for a, b in pieces)
+            want.append((after, e_orig))
+        try:
+            got = sorted((repr(_poly(a)), repr(_poly(b))) for a, b in pieces)
+        except SyntaxError:
+            got, understood = [], False
         exp = sorted((repr(_poly(a)), repr(_poly(b))) for a, b in want)
         ok = understood and left_empty is not None and right_empty is not None and got == exp
         run.check(ok, "C09.GAP", fn.qual,
                   f"[s, e) without T -> {' + '.join(f'[{a}, {b})' for a, b in want) or 'nothing'}",
                   f"taking `{ts}` out of the gap [{s0}, {e0}) that contains it leaves "
-                  f"{[(u(_ast(a))[:40], u(_ast(b))[:40]) for a, b in pieces]} instead of the non-empty ones of "
+                  f"{[(a[:40], b[:40]) for a, b in pieces]} instead of the non-empty ones of "
                   f"[start, {ts}) and [{ts} + period, end): a written slot stays recorded as missing or a missing one "
                   "is reported as valid", **where)
     _floor(run, fn.qual, n >= 4, f"{fn.qual}: only {n} paths with a gap found")
@@ -1635,9 +1697,15 @@ def check_cleanup(run: Run, prog: Program) -> None:  # noqa: C901
     run.analysed(fn.qual)
     gaps = "self._gaps"
     paths = ordered_paths(prog, fn)
-    loops = [(p, e) for p in paths for e in p.effects if e.kind == "loop"]
-    if len(loops) != 1 or not isinstance(loops[0][1].orig, ast.While):
-        raise AnalysisError(f"{fn.qual}: expected one index walk over the gap list")
+    loops, seen_loops = [], set()
+    for p in paths:
+        for e in p.effects:
+            if e.kind == "loop" and isinstance(e.orig, ast.While) and id(e.orig) not in seen_loops \
+                    and f"len({gaps})" in u(e.orig.test):
+                seen_loops.add(id(e.orig))
+                loops.append((p, e))
+    if len(loops) != 1:
+        raise AnalysisError(f"{fn.qual}: expected one index walk over the gap list, found {len(loops)}")
     p0, loop = loops[0]
     where0 = _where(fn, p0)
     # sorted by start first
@@ -1665,6 +1733,12 @@ def check_cleanup(run: Run, prog: Program) -> None:  # noqa: C901
         return
     w1, w2 = f"{gaps}[{ivar}]", f"{gaps}[{ivar} + 1]"
     has_next = ("<", ivar, f"len({gaps}) - 1")
+
+    def present(p: Path, before: int | None = None) -> bool:
+        return truth(p, w2, before) is True or none_test(p, w2, before) is False
+
+    def absent(p: Path) -> bool:
+        return decided(p, has_next) is False or truth(p, w2) is False or none_test(p, w2) is True
     q0 = Path()
     q0.env = dict(getattr(loop, "env", {}))
     n = 0
@@ -1690,7 +1764,7 @@ def check_cleanup(run: Run, prog: Program) -> None:  # noqa: C901
                       "have one", **where)
         if not muts:
             done = entails_lt(p, OLDEST_F, f"{w1}.end") and entails_le(p, OLDEST_F, f"{w1}.start") and (
-                decided(p, has_next) is False or truth(p, w2) is False or entails_lt(p, f"{w1}.end", f"{w2}.start"))
+                absent(p) or entails_lt(p, f"{w1}.end", f"{w2}.start"))
             run.check(adv == f"{ivar} + 1" and done, "C09.GAP", fn.qual, f"{ivar} += 1 past a gap that needs nothing",
                       "the walk leaves a gap without changing the list although it is not established that the gap "
                       "lies inside the window and neither overlaps nor touches its successor -- or it does not "
@@ -1708,13 +1782,13 @@ def check_cleanup(run: Run, prog: Program) -> None:  # noqa: C901
                 ok = u(val) == OLDEST_F and entails_lt(p, f"{w1}.start", OLDEST_F, i)
                 what = "a gap's start is moved although it is not established to start before the window (or not to the oldest slot)"
             elif kind == "set" and tgt == f"{w1}.end":
-                ok = u(val) == f"{w2}.end" and truth(p, w2, i) is True and entails_le(p, f"{w2}.start", f"{w1}.end", i) and (
+                ok = u(val) == f"{w2}.end" and present(p, i) and entails_le(p, f"{w2}.start", f"{w1}.end", i) and (
                     entails_le(p, f"{w1}.end", f"{w2}.end", i) or (sort_ok and entails_lt(p, f"{w2}.start", f"{w1}.start", i)))
                 what = ("a gap is extended to its successor's end although the two are not established to overlap or "
                         "touch, or the successor could end earlier (missing slots become valid)")
                 merged = ok
             elif kind == "del" and tgt == w2:
-                ok = truth(p, w2, i) is True and (merged or (
+                ok = present(p, i) and (merged or (
                     entails_le(p, f"{w1}.start", f"{w2}.start", i) and entails_le(p, f"{w2}.end", f"{w1}.end", i)))
                 what = "the successor gap is dropped although it is neither contained in the current gap nor merged into it"
             else:
@@ -1730,7 +1804,7 @@ def check_fill_stores(run: Run, prog: Program) -> None:
     fg = _role_func(prog, "fill")
     run.analysed(fg.qual)
     data, fill = fg.params[1], fg.params[2]
-    body = loop_paths(ordered_paths(prog, fg), fg.qual)
+    body = loop_paths(ordered_paths(prog, fg), fg.qual, prog=prog, fn=fg)
     ranges: set[tuple[str, str]] = set()
     stores = []
     for p in body:
